@@ -30,8 +30,9 @@ def seq_case(draw, kinds=("Array", "List", "Tuple"), ets=("Int", "String"), max_
     vals = elem_values(et)
     ops = []
     n = draw(st.integers(1, max_ops))
-    idx = st.tuples(st.integers(0, 1000), st.booleans())          # (position permille, negative form)
-    choices = ["push", "push", "push", "pop", "push_at", "pop_at", "set", "get", "rem", "mem", "concat", "append",
+    pm = st.one_of(st.sampled_from([0, 1000]), st.integers(0, 1000))      # positions biased to both ends
+    idx = st.tuples(pm, st.booleans())          # (position permille, negative form)
+    choices = ["push", "push", "push", "pop", "push_at", "push_at_neg", "pop_at", "set", "get", "rem", "mem", "concat", "append",
                "resize", "sort", "assign", "copy", "pushn", "popn"]
     for _ in range(n):
         o = draw(st.sampled_from(choices))
@@ -39,8 +40,8 @@ def seq_case(draw, kinds=("Array", "List", "Tuple"), ets=("Int", "String"), max_
             ops.append([o, draw(vals)])
         elif o == "pop":
             ops.append([o])
-        elif o == "push_at":
-            ops.append([o, draw(st.integers(0, 1000)), draw(vals)])
+        elif o in ("push_at", "push_at_neg"):
+            ops.append([o, draw(pm), draw(vals)])
         elif o in ("pop_at", "get"):
             p, neg = draw(idx)
             ops.append([o, p, neg])
@@ -188,6 +189,26 @@ class SeqRun:
             i = op[1] * n // 1001
             P.add("push_at %s %s i:%d" % (self.c, self.elem_arg(op[2]), i))
             m.insert(i, op[2])
+        elif o == "push_at_neg":
+            # negative index: the containers disagree whether it counts from the old or the new length (Appendix A),
+            # so either insertion position is accepted; afterwards the container is rebuilt to a known state.
+            if n == 0 or self.kind == "Tuple":
+                return
+            i = -(1 + op[1] * n // 1001)                  # in [-n, -1]
+            a = list(m); a.insert(n + i, op[2])           # counted from the old length
+            b = list(m); b.insert(n + 1 + i, op[2])       # counted from the new length
+            tag = {"Array": "A", "List": "L"}[self.kind]
+            ra = "ok %s[%s]" % (tag, ",".join(lit_repr(v) for v in a))
+            rb = "ok %s[%s]" % (tag, ",".join(lit_repr(v) for v in b))
+            P.add("push_at %s %s i:%d" % (self.c, op[2], i))
+            P.add("repr %s" % self.c, lambda o, ra=ra, rb=rb: None if o in (ra, rb) else "after push_at with a negative index: %s, expected %s or %s" % (o, ra, rb))
+            P.add("len %s" % self.c, expect_ok(str(n + 1)))
+            P.add("resize %s 0" % self.c)
+            for v in a:
+                P.add("push %s %s" % (self.c, v))
+            m[:] = a
+            self.flags["neg_ops"].add("push_at")
+            self.flags["last_cap"] = None
         elif o == "pop_at":
             if n == 0:
                 return
